@@ -17,6 +17,8 @@ import (
 type optDecl struct {
 	Names string `json:"names"` // as given to mow.cli, e.g. "a aa"
 	Flag  bool   `json:"flag"`
+	// Version: this option is the one Cli.Version declares (no recording variable behind it)
+	Version bool `json:"version"`
 }
 
 type program struct {
@@ -61,7 +63,17 @@ type rec struct {
 	log  *[]string
 }
 
-func (r *rec) Set(s string) error { *r.log = append(*r.log, "S:"+s); return nil }
+// execHexLog: values are logged hex-encoded (cases whose tokens are not valid UTF-8 and so cannot travel as JSON text)
+var execHexLog bool
+
+func (r *rec) Set(s string) error {
+	if execHexLog {
+		*r.log = append(*r.log, "S:h:"+hex.EncodeToString([]byte(s)))
+	} else {
+		*r.log = append(*r.log, "S:"+s)
+	}
+	return nil
+}
 func (r *rec) String() string     { return "" }
 func (r *rec) Clear()             { *r.log = append(*r.log, "C") }
 func (r *rec) IsBoolFlag() bool   { return r.flag }
@@ -78,6 +90,10 @@ type execCase struct {
 	Argv []string `json:"argv"`
 	// Prerun: argument vectors run first on the SAME application object (outcome ignored)
 	Prerun [][]string `json:"prerun"`
+	// ArgvHex, when given, replaces Argv: hex-encoded byte strings; the values are then logged hex-encoded too
+	ArgvHex []string `json:"argv_hex"`
+	// PostHelp: after Run returned, the application's help is requested through PrintHelp; its usage line is reported
+	PostHelp bool `json:"posthelp"`
 }
 
 type execResult struct {
@@ -93,6 +109,7 @@ type execResult struct {
 	Hooks    []string            `json:"hooks,omitempty"` // Before/After interceptors that ran
 	ErrLines []string            `json:"errlines,omitempty"`
 	Usage    string              `json:"usage,omitempty"`
+	PostUsage string             `json:"postusage,omitempty"`
 }
 
 func init() {
@@ -180,6 +197,10 @@ func runExec(p program, c execCase) (r execResult) {
 		nosbu[k] = true
 	}
 	declOpt := func(o optDecl) {
+		if o.Version {
+			app.Version(o.Names, "VERSION-STRING-2.0")
+			return
+		}
 		k := optKey(o.Names)
 		l, b := new([]string), new(bool)
 		logs["O:"+k] = l
@@ -247,8 +268,24 @@ func runExec(p program, c execCase) (r execResult) {
 		}
 		errBuf.Reset()
 	}
-	if err := app.Run(append([]string{"app"}, c.Argv...)); err != nil {
+	argv := c.Argv
+	if len(c.ArgvHex) > 0 {
+		argv = nil
+		for _, h := range c.ArgvHex {
+			b, _ := hex.DecodeString(h)
+			argv = append(argv, string(b))
+		}
+		execHexLog = true
+		defer func() { execHexLog = false }()
+	}
+	if err := app.Run(append([]string{"app"}, argv...)); err != nil {
 		r.Err = err.Error()
+	}
+	if c.PostHelp {
+		mark := errBuf.Len()
+		app.PrintHelp()
+		_, r.PostUsage = digest(errBuf.String()[mark:])
+		errBuf.Truncate(mark)
 	}
 	return
 }
